@@ -256,8 +256,21 @@ FamHostile ==
           \cup { [kind |-> "bytes", slot |-> "none", j |-> 0, how |-> h] : h \in {"trailing1", "trailing32", "truncate1", "truncate32"} }
   IN UNION { { One([BaseMember(b) EXCEPT !.mut = mu], mode) : mu \in HM(b), mode \in Modes } : b \in HB }
 
+(***************************************************************************************************)
+(* forge (C02, C07, C19): proofs made by the independent prover, which has no witness guards.         *)
+(* In range: interoperability (accepted, masks recovered).  Out of range / below the promise: the     *)
+(* relation is false, rejected.  Value >= 2^n with a promise that brings value - promise back into    *)
+(* range: accepted iff the promise itself fits the bit length (C07).                                  *)
+(***************************************************************************************************)
+FamForge ==
+  { One([Member(n, t, m, m, "mid", vs, js, "none", ps, js, IF m = 1 THEN sd ELSE 0, 0, "chacha") EXCEPT !.wit = [kind |-> "forge", j |-> 0]], mode) :
+      n \in (IF Quick THEN {2, 8} ELSE {2, 8, 32}), t \in {1, 2}, m \in {1, 2}, js \in {1, 2},
+      vs \in {"zero", "mid", "max", "over", "b63", "umax"}, ps \in {"none", "zero", "lt", "eq", "gt", "max", "over", "umax"},
+      sd \in {0, 1}, mode \in {"VerifyOnly", "RecoverAndVerify"} }
+
 Scenarios ==
   CASE Family = "complete" -> FamComplete
+    [] Family = "forge"    -> FamForge
     [] Family = "hostile"  -> FamHostile
     [] Family = "roundtrip" -> FamRoundtrip
     [] Family = "bind"     -> FamBind
